@@ -43,8 +43,11 @@ func New[M prc.Message](rc *prc.ResourceController, id *prc.ProcessId, timeout t
 		timeout: timeout,
 	}
 
+	// the reference must be in place before the process is registered: Register arms the timeout
+	// timer, and a timer that fires at once (tiny timeouts) unregisters the future by its reference
+	fp.ref = id
 	verifhook.At("fut.reg")
-	fp.ref, _ = rc.Register(id, fp)
+	rc.Register(id, fp)
 	return fp
 }
 
